@@ -514,8 +514,10 @@ impl<W: std::io::Write> std::io::Write for Sha256Writer<W> {
     fn write(&mut self, buf: &[u8]) -> std::io::Result<usize> {
         #[cfg(feature = "verif-hooks")]
         crate::verif_hooks::hit("sha256writer.write");
-        self.hasher.update(buf);
-        self.writer.write(buf)
+        // the inner writer may accept only a part of the buffer - only hash that part
+        let written = self.writer.write(buf)?;
+        self.hasher.update(&buf[..written]);
+        Ok(written)
     }
 
     fn flush(&mut self) -> std::io::Result<()> {
